@@ -93,7 +93,8 @@ Lemma marker_kstep W st c k x s : World_ok W -> wf_ks W (get_ks st k) -> wf_ks W
 Proof.
   intros HW Hwf Hwx Hk Hgc Hin. pose proof (kstep_shape st c k x Hk) as Hsh.
   pose proof (wf_wok _ _ Hwx) as Hfx. remember (ks_writes x) as wx eqn:Ex.
-  destruct Hsh as [|w|s0 e0 sp Ec].
+  destruct Hsh as [|w|s0 e0 sp Ec|s0 e0 Ec].
+  4:{ subst c. discriminate Hgc. }
   - exact Hin.
   - eapply put_keep_start; [exact HW|exact (wf_wok _ _ Hwf)| |exact Hin].
     rewrite Forall_forall in Hfx. apply Hfx. apply put_write_has.
